@@ -12,9 +12,11 @@ CHECKS = {
               "(3 keys, all placements, 2-3 slots, merges, save/load, batch and ngram entry points); every explored "
               "transition is replayed on the real class at the real ceiling (values scaled by (2^32-1)/Cap) and "
               "recorded random histories of the real class (arbitrary byte keys, values around 2^32-1 and 2^40, widths "
-              "1..64, up to 4 sketches) are validated step by step against the same specification with ghost truth."),
+              "1..64, up to 4 sketches) are validated step by step against the same specification with ghost truth.  The repository's "
+              "own linear count-min tests, run unchanged by pytest under a recording plugin (no source change), are validated as "
+              "traces of the same specification."),
         note="trusted: TLC, CommunityModules, numpy; key placement observed on probe sketches; exhaustive only for the named small instances",
-        technique="TLA+ spec + TLC exhaustive check; edge replay spec->code; trace validation code->spec (exact big naturals)"),
+        technique="TLA+ spec + TLC exhaustive check; edge replay spec->code; trace validation code->spec (exact big naturals), incl. traces recorded from the repository's own tests"),
     "C03": dict(
         category="model_checking", design_ref="DESIGN.md 4.3",
         text=("TLC checks NoOverCell/NoOver/NoGhost on every history of small HeavyHitters instances whose key universe "
@@ -55,7 +57,8 @@ CHECKS = {
         text=("Hashes.tla transcribes FastHash64/32 and MurmurHash3_x86_32 over byte-limb words and is anchored, in every run, to "
               "SMHasher's published verification values (0xA16231A7, 0xE9481AFC, 0xB0F57EE3) evaluated by TLC; every recorded call "
               "of the three real functions (all lengths 0..257, biased bytes, boundary seeds, sliced keys, a second interpreter "
-              "with another PYTHONHASHSEED, repeated calls) is one trace event that TLC recomputes and compares."),
+              "with another PYTHONHASHSEED, repeated calls; half of them on slice views inside jitted code) is one trace event that "
+              "TLC recomputes and compares."),
         note="trusted: SMHasher constants identify the reference algorithms; TLC Bitwise overrides",
         technique="TLA+ transcription of the reference hashes checked by TLC; trace validation of recorded calls"),
     "C05": dict(
@@ -136,7 +139,8 @@ CHECKS = {
         text=("ParallelAdd.tla with fault actions: callbacks raising before/after touching the sketches on chosen items and one worker "
               "dying on its k-th item.  TLC checks RaiseKeepsOthers, DeathNeverReturns and Termination on all schedules; the terminal "
               "outcomes are replayed against the real worker and monitor loops in-process (a hang of the real code is detected as "
-              "'no runnable process'); a real spawned run with os._exit(1) in a worker must end in an exception within a time bound."),
+              "'no runnable process'); a real spawned run with os._exit(1) in a worker must end in an exception within a time bound.  "
+              "Growth: a merge process killed by the system, and LogChannel.tla (the log process as a refinement of ParallelAdd)."),
         note="in-process death = uncaught BaseException in the worker thread (exit code 1); the monitor pass is modelled as atomic",
         technique="TLA+ spec with fault actions + TLC; replay of outcomes into the real code; real fault-injection run"),
     "C14": dict(
@@ -162,7 +166,7 @@ CHECKS = {
         text=("HLLQuery.tla states the regime decision (linear counting / bias-corrected with zero registers / bias-corrected up to 5m / "
               "raw) and the estimate; TLC checks the shipped tables (strictly increasing, raw[1]-bias[1] = threshold) and validates one "
               "recorded query() per register array: regime decided exactly, interpolation segment located in the tables, answer within "
-              "2^-30 relative.  Arrays from real key sets and synthetic arrays hit all 40 regime x precision cells and both sides of "
+              "2^-30 relative (two thirds of the states reached on objects that already answered a query, by merge or register writes).  Arrays from real key sets and synthetic arrays hit all 40 regime x precision cells and both sides of "
               "both boundaries (a missing cell fails the run as vacuous)."),
         note="real-valued ingredients (ln, exact rational raw estimate and interpolated bias) are computed by the harness with CPython math/fractions and enter TLC as exact integers",
         technique="TLA+ decision structure + trace validation of recorded evaluations (one per transition of the case analysis)"),
